@@ -105,7 +105,9 @@ ValueFails(e) ==    \* the call returned a value: is it what the name denotes?
     [] f \in OneMath -> LET x == AsDouble8(e.mgr, a[1])  an == IF x[1] THEN Anchor(f, x[2]) ELSE <<FALSE, 0>> IN
          F(r.t = "Double", "an IEEE function does not return a Double")
          \o (IF an[1] THEN F(Exact(r) /\ Num8(r) = an[2], "an IEEE function is wrong at a point where its value is exact") ELSE "")
-    [] f = "contains" -> (IF a[1].t = "String" /\ a[2].t = "String" /\ a[1].c # <<>> THEN F(r.k = "bool" /\ (r.n = 1) = Contains(a[1].c, a[2].c), "Contains is not the substring test") ELSE F(r.t = "Boolean", "Contains does not return a Boolean"))
+    [] f = "contains" -> (IF "hostcontains" \in DOMAIN e /\ e.hostcontains # "none"
+                          THEN F(r.k = "bool" /\ (r.n = 1) = (e.hostcontains = "true"), "Contains is not the substring test")    \* the host's test on the texts byte for byte
+                          ELSE IF a[1].t = "String" /\ a[2].t = "String" /\ a[1].c # <<>> THEN F(r.k = "bool" /\ (r.n = 1) = Contains(a[1].c, a[2].c), "Contains is not the substring test") ELSE F(r.t = "Boolean", "Contains does not return a Boolean"))
     [] f = "empty" -> (IF a[1].t = "Null" THEN F(r.k = "bool" /\ r.n = 1, "Empty(null) is not true")
                        ELSE IF a[1].t \in Numeric \cup {"Boolean"} \/ (a[1].t = "String" /\ a[1].c # <<>>) THEN F(r.k = "bool" /\ r.n = 0, "Empty of a non-empty value is not false") ELSE F(r.t = "Boolean", "Empty does not return a Boolean"))
     [] f = "null" -> F(r.t = "Null", "Null() is not null")
